@@ -86,6 +86,7 @@ type vHistOp struct {
 	Nsamp int      `json:"nsamp,omitempty"`
 	Src   int      `json:"src,omitempty"`
 	Rx    []int    `json:"rx,omitempty"`
+	Coupling int   `json:"coupling,omitempty"` // 1 none, 2 FB->err, 3 err->FB (kind "coupling")
 }
 
 type vRestored struct {
@@ -104,6 +105,7 @@ type vPipeCase struct {
 	Streams  []vStream   `json:"streams"`
 	Pulses   []vPulse    `json:"pulses,omitempty"`
 	Restored []vRestored `json:"restored,omitempty"` // trigger settings found in the saved configuration at start
+	Lancero  bool        `json:"lancero,omitempty"`  // use a LanceroSource value (for error/feedback coupling); channels come in err/fb pairs
 	Hist     []vHistOp   `json:"hist,omitempty"`
 }
 
@@ -208,6 +210,9 @@ type vTrace struct {
 	ds     *AnySource
 }
 
+// vPipeAfterOp, when set, is called after every history operation with the model connection set.
+var vPipeAfterOp func(ds *AnySource, h vHistOp, conn map[[2]int]bool) *vVerdict
+
 var vPipeT0 = time.Date(2024, 3, 1, 12, 0, 0, 0, time.UTC)
 
 func (c *vPipeCase) valid() bool {
@@ -269,6 +274,12 @@ func vRunPipe(c *vPipeCase, observe func(tr *vTrace, k int, recs []*DataRecord) 
 	vDrainRecords()
 	tr := &vTrace{Truth: c.truth(), T0: vPipeT0, Period: time.Duration(c.PeriodNs)}
 	ds := &AnySource{nchan: c.Nchan, name: "verif"}
+	var ls *LanceroSource
+	if c.Lancero {
+		ls = &LanceroSource{}
+		ls.nchan, ls.name = c.Nchan, "verif"
+		ds = &ls.AnySource
+	}
 	ds.sampleRate = 1e9 / float64(c.PeriodNs)
 	ds.samplePeriod = time.Duration(c.PeriodNs)
 	ds.voltsPerArb = make([]float32, c.Nchan) // per-channel scale as a hardware source would set it
@@ -370,8 +381,33 @@ func vRunPipe(c *vPipeCase, observe func(tr *vTrace, k int, recs []*DataRecord) 
 					}
 				}
 			case "stopcoupling":
+				// what the StopTriggerCoupling request does
 				ds.StopTriggerCoupling()
+				if ls != nil {
+					ls.SetCoupling(NoCoupling)
+				}
 				conn = map[[2]int]bool{}
+			case "coupling":
+				if ls != nil {
+					if err := ls.SetCoupling(CouplingStatus(h.Coupling)); err != nil {
+						f := vFailf("coupling-rejected", "SetCoupling(%d): %v", h.Coupling, err)
+						return tr, &f
+					}
+					for i := 0; i+1 < c.Nchan; i += 2 {
+						delete(conn, [2]int{i, i + 1})
+						delete(conn, [2]int{i + 1, i})
+						if CouplingStatus(h.Coupling) == ErrToFB {
+							conn[[2]int{i, i + 1}] = true
+						} else if CouplingStatus(h.Coupling) == FBToErr {
+							conn[[2]int{i + 1, i}] = true
+						}
+					}
+				}
+			}
+			if vPipeAfterOp != nil {
+				if f := vPipeAfterOp(ds, h, conn); f != nil {
+					return tr, f
+				}
 			}
 		}
 		stamp := tr.T0.Add(time.Duration(c.F0+int64(pos)) * tr.Period)
